@@ -140,6 +140,7 @@ def _solve_cutting_stock(roll_width, piece_sizes, demands, max_iter, eps, on_pro
 
     iteration = 0
     lp_obj = float("inf")
+    bound_proven = False  # the LP value is a lower bound only once pricing finds no improving column
 
     while iteration < max_iter:
         x_vals, duals, lp_obj = _solve_master_lp(patterns, demands, eps)
@@ -151,6 +152,7 @@ def _solve_cutting_stock(roll_width, piece_sizes, demands, max_iter, eps, on_pro
 
         # Reduced cost = 1 - pricing_value; stop if >= 0
         if pricing_value <= 1.0 + eps:
+            bound_proven = True
             break
 
         if new_pattern not in patterns:
@@ -185,7 +187,7 @@ def _solve_cutting_stock(roll_width, piece_sizes, demands, max_iter, eps, on_pro
             )
 
     lb = ceil(lp_obj - eps)
-    status = Status.OPTIMAL if total_rolls <= lb else Status.FEASIBLE
+    status = Status.OPTIMAL if bound_proven and total_rolls <= lb else Status.FEASIBLE
 
     return Result(solution, float(total_rolls), iteration, iteration, status)
 
@@ -203,6 +205,7 @@ def _solve_custom(demands, pricing_fn, initial_columns, max_iter, eps, on_progre
 
     iteration = 0
     lp_obj = float("inf")
+    bound_proven = False  # the LP value is a lower bound only once pricing finds no improving column
 
     while iteration < max_iter:
         x_vals, duals, lp_obj = _solve_master_lp(columns, demands, eps)
@@ -213,6 +216,7 @@ def _solve_custom(demands, pricing_fn, initial_columns, max_iter, eps, on_progre
         new_col, reduced_cost = pricing_fn(duals)
 
         if new_col is None or reduced_cost >= -eps:
+            bound_proven = True
             break
 
         new_col_tuple = tuple(new_col)
@@ -236,7 +240,7 @@ def _solve_custom(demands, pricing_fn, initial_columns, max_iter, eps, on_progre
                 total += count
 
     lb = ceil(lp_obj - eps)
-    status = Status.OPTIMAL if total <= lb else Status.FEASIBLE
+    status = Status.OPTIMAL if bound_proven and total <= lb else Status.FEASIBLE
 
     return Result(solution, float(total), iteration, iteration, status)
 
